@@ -250,6 +250,14 @@ func resultFromAllowed(f *ssa.Function, v ssa.Value, alloc ssa.Value, depth int)
 	case *ssa.Extract:
 		return x.Tuple == alloc && x.Index == 0
 	case *ssa.Call:
+		// a helper that appends the keys of a metrics map to a list:
+		// allowed when the list is and the map is the valid current set
+		if h := x.Common().StaticCallee(); h != nil && h.Blocks != nil && callName(x.Common()) != "builtin.append" {
+			if sp, mp, ok := keysAppender(h); ok && sp < len(x.Common().Args) && mp < len(x.Common().Args) {
+				return resultFromAllowed(f, x.Common().Args[sp], alloc, depth-1) && paramIndex(f, x.Common().Args[mp]) == 5
+			}
+			return false
+		}
 		if callName(x.Common()) == "builtin.append" {
 			a := x.Common().Args
 			if !resultFromAllowed(f, a[0], alloc, depth-1) {
@@ -563,8 +571,8 @@ func r035(c *Ctx, r *R) {
 				continue
 			}
 			n++
-			notDisc := guardedBy(ci.Block(), func(g Guard) bool { return gCall(g, false, "api.Metric).Discard") })
-			parsed := guardedBy(ci.Block(), func(g Guard) bool { return gCallErrNil(g, "strconv.ParseUint") })
+			notDisc := guardedByDeep(ci.Block(), func(g Guard) bool { return gCall(g, false, "api.Metric).Discard") })
+			parsed := guardedByDeep(ci.Block(), func(g Guard) bool { return gCallErrNil(g, "strconv.ParseUint") })
 			r.Check(notDisc && parsed, "sorter:skips-bad-metrics", ci.Pos(), "only non-discarded metrics with a numeric value are ranked", fmt.Sprintf("SortNumeric ranks metrics that are discarded (%v) or non-numeric (%v)", !notDisc, !parsed))
 		}
 		if n == 0 {
@@ -591,4 +599,98 @@ func r035(c *Ctx, r *R) {
 		}
 		r.Check(okRev && okFwd, "sorter:less", ls.Pos(), "Less is x > y when reversed, x < y otherwise", "metricSorter.Less does not order by the reverse flag")
 	}
+}
+
+// keysAppender recognises a helper whose result is one of its slice
+// parameters extended (by append) with the keys of one of its map
+// parameters, and nothing else.
+func keysAppender(h *ssa.Function) (sliceParam, mapParam int, ok bool) {
+	sliceParam, mapParam = -1, -1
+	if h.Signature.Results().Len() != 1 {
+		return -1, -1, false
+	}
+	seen := map[ssa.Value]bool{}
+	var built func(v ssa.Value, depth int) bool
+	built = func(v ssa.Value, depth int) bool {
+		if depth > 10 {
+			return false
+		}
+		if k := paramIndexLocal(h, v); k >= 0 {
+			if _, isSlice := h.Params[k].Type().Underlying().(*types.Slice); isSlice {
+				if sliceParam >= 0 && sliceParam != k {
+					return false
+				}
+				sliceParam = k
+				return true
+			}
+			return false
+		}
+		switch x := v.(type) {
+		case *ssa.Phi:
+			if seen[x] {
+				return true
+			}
+			seen[x] = true
+			for _, e := range x.Edges {
+				if !built(e, depth+1) {
+					return false
+				}
+			}
+			return true
+		case *ssa.Call:
+			if callName(x.Common()) != "builtin.append" {
+				return false
+			}
+			a := x.Common().Args
+			if !built(a[0], depth+1) {
+				return false
+			}
+			els := variadicElems(a[1])
+			if len(els) == 0 {
+				return false
+			}
+			for _, el := range els {
+				okKey := false
+				for k, prm := range h.Params {
+					if _, isMap := prm.Type().Underlying().(*types.Map); isMap && keyOfParamLocal(h, el, k) {
+						if mapParam >= 0 && mapParam != k {
+							return false
+						}
+						mapParam = k
+						okKey = true
+					}
+				}
+				if !okKey {
+					return false
+				}
+			}
+			return true
+		}
+		return false
+	}
+	for _, lf := range returnLeaves(h, 0) {
+		if !built(lf.Val, 0) {
+			return -1, -1, false
+		}
+	}
+	return sliceParam, mapParam, sliceParam >= 0 && mapParam >= 0
+}
+
+func keyOfParamLocal(h *ssa.Function, v ssa.Value, idx int) bool {
+	for d := 0; d < 4; d++ {
+		switch x := v.(type) {
+		case *ssa.Extract:
+			if nx, ok := x.Tuple.(*ssa.Next); ok && x.Index == 1 {
+				if rg, ok := nx.Iter.(*ssa.Range); ok {
+					return paramIndexLocal(h, rg.X) == idx
+				}
+			}
+			return false
+		case *ssa.ChangeType:
+			v = x.X
+		default:
+			return false
+		}
+	}
+	return false
 }
